@@ -25,10 +25,12 @@ META = dict(
     note="Trusted: TLC, miniredis as Redis, the driver's tick barrier (a sentinel timer set right before each tick "
          "fires last in its slot; then the cleaner's task runner is idle and the wheel has accepted a no-op). "
          "Bounds: <= 2 ids, 2 index values, 2 payloads, 1-3 Redis nodes (placement classes split/mixed/three-way), "
+         "cache node over Redis of type node and of type cluster (per-key removals failing individually), "
          "histories of 3-6 operations exhaustively (each <= 60 000 histories) + seeded simulated histories of 14-40 "
          "operations, <= 4 outages, ladder rungs up to 60 s exhaustively and up to 3600 s in the thorough simulation. "
          "Not covered: operations racing with outages or with writes (only sequential histories + concurrent readers of "
-         "uncached keys between writes), Redis Cluster type (per-key DEL branch of node.DelCtx), hit/miss statistics "
+         "uncached keys between writes), a real multi-shard Redis Cluster (the ClusterType branch of node.DelCtx is driven "
+         "through go-redis' ClusterClient against one miniredis that owns all slots), hit/miss statistics "
          "(stat.go), invalid JSON in the cache (processCache), QueryRowIndex under concurrency, TakeWithExpire callers "
          "other than QueryRowIndex. CacheAsideImpl (step-wise doTake model) of DESIGN.md was not built: the "
          "concurrent clause is decided by validating recorded traces of the real code against CacheAsideTrace.tla.",
@@ -107,8 +109,8 @@ READS = ["qrow", "qindex"]
 WRITES = ["put", "delete"]
 
 
-def drv_cfg(K, nodes, place, ids, names):
-    return json.dumps(dict(nodes=nodes, place=place, ids=ids, names=names, expire=K["E"], nf=K["NF"]))
+def drv_cfg(K, nodes, place, ids, names, rtype="node"):
+    return json.dumps(dict(nodes=nodes, place=place, ids=ids, names=names, expire=K["E"], nf=K["NF"], rtype=rtype))
 
 
 def get_ladder(ctx, binp):
@@ -127,7 +129,7 @@ def get_ladder(ctx, binp):
 
 class Plan:
     def __init__(self, name, ids, names, datas, nodes, place, jits, initdbs, adv, maxfail, maxops, ops, maxdown=1,
-                 tail=6, fault="error", simulate=None, depth=None, shards=6, e=40, nf=20):
+                 tail=6, fault="error", simulate=None, depth=None, shards=6, e=40, nf=20, rtype="node"):
         self.__dict__.update(locals())
 
 
@@ -140,7 +142,7 @@ def run_plan(ctx, binp, ladder, p):
         raise core.Infra("plan %s generated no behaviour" % p.name)
     path, n = ctx.write_cases(p.name + ".ndjson", cases)
     ctx.samples += core.sample_of(cases, 1)
-    env = dict(VERIF_C06_CFG=drv_cfg(K, p.nodes, p.place, p.ids, p.names), VERIF_C06_FAULT=p.fault)
+    env = dict(VERIF_C06_CFG=drv_cfg(K, p.nodes, p.place, p.ids, p.names, p.rtype), VERIF_C06_FAULT=p.fault)
     ctx.notes.setdefault("plans", {})[p.name] = dict(cases=n, maxops=p.maxops, ops=p.ops, nodes=p.nodes, fault=p.fault,
                                                      adv=p.adv, tail=p.tail, simulate=p.simulate)
     return ctx.replay(PKG, OVERLAY, RUN, path, label=p.name, env=env, shards=p.shards, binp=binp, timeout=1500)
@@ -171,6 +173,14 @@ def plans_for(ctx):
     # consistent-hash cluster, every placement class of {p:1, i:a, i:b} over 2 nodes, per-node outages
     P.append(Plan("clu-split", i1, n2, d, 2, split, ["hi"], dbs, [1], 3, 4, CLU, maxdown=2))
     P.append(Plan("clu-mixed", i1, n2, d, 2, mixed, ["mid"], dbs, [5], 3, 4, CLU, maxdown=2))
+    # Redis of ClusterType under one cache node: a multi-key removal is one DEL per key, each may fail on its own
+    # (the model's nodes are virtual here: a command fails when it names a key placed on a node that is down)
+    vsplit = {"p:1": 1, "i:a": 2, "i:b": 2}
+    vmixed = {"p:1": 2, "i:a": 1, "i:b": 2}
+    P.append(Plan("rclu", i1, n2, d, 2, vsplit, ["mid"], dbs, [1], 3, 4, READS + ["put", "down", "up"], maxdown=2,
+                  rtype="cluster"))
+    P.append(Plan("rclu-one", i1, n2, d, 1, one12, ["hi"], dbs, [1, 5], 3, 4, READS + WRITES + ["adv", "down", "up"],
+                  maxdown=1, rtype="cluster", e=30, nf=10))
     # the retry ladder over virtual time (rungs 1 s, 5 s, 60 s; tail long enough to see a repeat)
     P.append(Plan("ladder", i1, n1, d, 1, one1, ["mid"], dbs, [1, 5, 60], 3, 5 if q else 6, ["put", "down", "up", "adv"],
                   maxdown=2, tail=61))
@@ -188,6 +198,10 @@ def plans_for(ctx):
                       READS + WRITES + ["delcache", "setcache", "adv"], maxdown=0))
         P.append(Plan("clu-split5", i1, n2, d, 2, split, ["lo"], dbs, [1], 3, 5, READS + ["put", "down", "up"], maxdown=2))
         P.append(Plan("clu-mixed5", i1, n2, d, 2, mixed, ["hi"], dbs, [1], 3, 5, READS + ["put", "down", "up"], maxdown=2))
+        P.append(Plan("rclu-mixed5", i1, n2, d, 2, vmixed, ["lo"], dbs, [1], 3, 5, READS + ["put", "down", "up"], maxdown=2,
+                      rtype="cluster"))
+        P.append(Plan("rclu-del", i1, n2, d, 2, vmixed, ["hi"], dbs, [5], 3, 4, CLU + ["delcache"], maxdown=2,
+                      rtype="cluster"))
         P.append(Plan("clu-three", i1, n2, d, 3, three, ["lo"], dbs, [1, 5], 3, 4, CLU, maxdown=2, e=30, nf=10))
         P.append(Plan("clu-2ids", i2, n2, d, 2, split2, ["hi"], dbs, [1, 5], 2, 3, CLU, maxdown=1))
         P.append(Plan("sim-clu", i2, n2, d, 2, split2, ["lo", "mid", "hi"], dbs2, [1, 5, 20, 60], 6, 30, ALL,
@@ -315,7 +329,8 @@ def vacuity(ctx):
     c = ctx.counters
     need = {"coh.read_shielded": 1, "coh.read_nf": 1, "coh.read_row": 1, "out.retry_del_seconds": 1, "out.read_loose": 1,
             "out.read_cacheerr": 1, "clu-split.read_cacheerr": 1, "clu-split.retry_del_seconds": 1,
-            "clu-mixed.retry_del_seconds": 1, "ladder.retry_del_seconds": 1, "close.retry_del_seconds": 1,
+            "clu-mixed.retry_del_seconds": 1, "rclu.retry_del_seconds": 1, "rclu.read_cacheerr": 1,
+            "rclu-one.retry_del_seconds": 1, "ladder.retry_del_seconds": 1, "close.retry_del_seconds": 1,
             "coh-set.op_setcache": 1, "coh-set.op_delcache": 1, "sim.retry_del_seconds": 1}
     missing = [k for k, v in need.items() if c.get(k, 0) < v]
     if missing:
@@ -340,5 +355,5 @@ def replay(ctx, rp):
     K = consts(p.ids, p.names, p.datas, list(range(1, p.nodes + 1)), p.place, ladder, p.jits, p.initdbs, p.adv, p.maxfail,
                e=p.e, nf=p.nf)
     path, _ = ctx.write_cases("replay.ndjson", [rp["case"]])
-    env = dict(VERIF_C06_CFG=drv_cfg(K, p.nodes, p.place, p.ids, p.names), VERIF_C06_FAULT=p.fault)
+    env = dict(VERIF_C06_CFG=drv_cfg(K, p.nodes, p.place, p.ids, p.names, p.rtype), VERIF_C06_FAULT=p.fault)
     ctx.replay(PKG, OVERLAY, RUN, path, label=p.name, env=env, shards=1, binp=binp)
